@@ -100,3 +100,53 @@ pub fn replay_prop(prop: &str, doc: &serde_json::Value) -> Result<Option<Found>,
 pub fn scenario_of(prop: &'static str, sem: hist::Sem, seed: u64, run: u64) -> Scenario {
     hist::plan(seed, prop, run, sem).scenario
 }
+
+/// Thorough tier: the same history against the simulated server and against the real
+/// `oal-lsp` process (fresh reference servers are real processes too); both must be clean
+/// and their transcripts (every request answer, every diagnostics snapshot) identical.
+pub fn validate(prop: &'static str, sem: hist::Sem, seed: u64, run: u64) -> Report {
+    let plan = hist::plan(seed, prop, run, sem);
+    let scn = plan.scenario.clone();
+    let bin = format!("{}/oal-lsp", std::env::var("OALSIM_REALBIN").unwrap_or_default());
+    std::env::remove_var("OALSIM_REAL_LSP");
+    let a = run_scenario(&scn, None);
+    std::env::set_var("OALSIM_REAL_LSP", &bin);
+    let b = run_scenario(&scn, None);
+    std::env::remove_var("OALSIM_REAL_LSP");
+    let mut violation = None;
+    let verdict = |o: &crate::lsp_sim::Outcome| o.violation.as_ref().map(|v| v.signature.clone());
+    if a.discarded.is_none() && b.discarded.is_none() {
+        if verdict(&a) != verdict(&b) {
+            violation = Some(found_from(
+                prop,
+                &scn,
+                "sim-vs-real verdicts-differ",
+                "simulated-vs-real",
+                &format!("simulated server: {:?}; real oal-lsp: {:?}", a.violation.as_ref().map(|v| (&v.signature, &v.detail)), b.violation.as_ref().map(|v| (&v.signature, &v.detail))),
+            ));
+        } else if a.transcript != b.transcript {
+            let k = a.transcript.iter().zip(b.transcript.iter()).position(|(x, y)| x != y).unwrap_or(a.transcript.len().min(b.transcript.len()));
+            violation = Some(found_from(
+                prop,
+                &scn,
+                "sim-vs-real transcripts-differ",
+                "simulated-vs-real",
+                &format!("entry {k}: simulated {:?} vs real {:?} (lengths {} / {})", a.transcript.get(k), b.transcript.get(k), a.transcript.len(), b.transcript.len()),
+            ));
+        }
+    }
+    Report {
+        violation,
+        digest: a.digest,
+        interleaving: crate::prng::digest64(a.stats.interleaving.as_bytes()),
+        states: vec![],
+        nontrivial: a.transcript.len() >= 2,
+        evals: 2,
+        oracle_checks: a.transcript.len() as u64,
+        sim_time_ms: 0,
+        probes: vec![],
+        fault_kinds: vec![],
+        sample: json!({"run": run, "transcript_entries": a.transcript.len(), "first_entries": a.transcript.iter().take(4).collect::<Vec<_>>()}),
+        counters: vec![("traces_validated_against_real_binary".into(), (a.discarded.is_none() && b.discarded.is_none()) as u64), ("transcript_entries".into(), a.transcript.len() as u64)],
+    }
+}
